@@ -41,7 +41,14 @@ RULE_EDGE = (
     "nearest ADMISSIBLE edge in every unit, boundary values, high-latitude cases where the nearer-by-degrees excluded "
     "edge is beyond the tolerance and the admissible one within. Guard families (reference points and queries at lat +-90 / lon +-180 / lon beyond 170, one ulp outside) and tolerance "
     "exactly equal / next-up / next-down of the real distance in Meters as for vertices (distance <= tolerance matches). "
-    " Family many_inadmissible_nearer: networks of 70-313 edges in which the 0/8/40/63/64/65/100/300 nearest edges are "
+    " REBUILDS: one case can be several STAGES - the geometry / class / restriction files are rewritten in place (same paths, "
+    "same row count with other coordinates or edge order; control: another row count) and a NEW plugin is built in the same "
+    "process; every stage is judged against the file contents at its build time. VEHICLE PARAMETERS are read on the harness "
+    "side exactly as the unchanged VehicleParameters::from_query does (all six fields present and well typed; "
+    "number_of_axles any non-negative integer JSON number, narrowed `as u8`): family axle_boundary uses 0, 1, 255, 256, 65536, "
+    "u64::MAX (parameters exist: the height / weight rows of the nearest edges must still be enforced; no per-axle row is "
+    "used, so the narrowed value does not matter) and -1, 2.5, '5', null, missing (no parameters: no restriction applies). "
+    "Family many_inadmissible_nearer: networks of 70-313 edges in which the 0/8/40/63/64/65/100/300 nearest edges are "
     "inadmissible (by class, by vehicle height, mixed) and exactly one farther edge is admissible, with and without a "
     "tolerance it satisfies; random crowded networks (70-130 edges, 80-99 % inadmissible). Two cases in five are SEQUENCES of 2-6 queries on ONE plugin instance: the bit-identical coordinate "
     "repeated with different vehicle parameters / road classes / with and without destination, interleaved with other "
